@@ -25,6 +25,15 @@ CHECKS = {
    note=TRUST + "Spec/Published.lean is a hand transcription of the papers. Known finding N4: CaT tau_u deviates where the clip "
         "is active inside the domain (theorem CaT_tau_u_clip_active); sub-1e-6 ms^-1 clip artefacts of Na/K/CaL rates below "
         "-103 mV are within the stated tolerance."),
+ "C14": dict(cat="proof", ref="DESIGN.md §4 C14",
+   technique="Lean 4 fixed-point theorems about the re-translated init_state/update_states kernels + implementation runs at kernel and Module level",
+   text="For HH, Na, K, CaL, Km, CaT (any name prefix): the generated init_state returns exactly the channel's state keys and any state "
+        "holding these values is returned unchanged by the generated update_states at the same voltage/parameters for every dt>0 "
+        "(theorems over ℝ under the exact non-singularity conditions); the steady state is the unique fixed point. The "
+        "implementation is run on random voltages/parameters and on Modules with partial, renamed and duplicated insertions "
+        "(frame: only rows containing the channel are written, each from its own v and parameters).",
+   note=TRUST + "Module.init_states (pandas row selection) is checked on the implementation, not modelled in Lean. Known finding F4b: "
+        "NaN at the removable singularities."),
 }
 
 def main():
